@@ -355,7 +355,7 @@ def tour(nodes, edges, inits, max_paths=None):
 
 
 # ---------------------------------------------------------------------------------- trace validation
-_VERDICT = re.compile(r'<<"VERDICT",\s*(.*?)>>\s*$', re.M)
+_VERDICT = re.compile(r'^"VERDICT <<(.*)>>"\s*$', re.M)
 
 
 def validate(module, cfg, traces, wd=None, timeout=900, extra_env=None, shard=4000, workers=1):
@@ -383,7 +383,7 @@ def validate(module, cfg, traces, wd=None, timeout=900, extra_env=None, shard=40
         r = run(module, cfg, wd=os.path.join(wd, "s%d" % k), workers=workers, timeout=timeout, env=env)
         return job, r
 
-    with ThreadPoolExecutor(max_workers=min(12, max(1, len(jobs)))) as ex:
+    with ThreadPoolExecutor(max_workers=min(16, max(1, len(jobs)))) as ex:
         results = list(ex.map(one, jobs))
     for (k, part, path), r in results:
         out = r["stdout"]
@@ -394,7 +394,7 @@ def validate(module, cfg, traces, wd=None, timeout=900, extra_env=None, shard=40
         stats["runs"] += 1
         stats["wall"] += r["wall"]
         for m in _VERDICT.finditer(out):
-            v = parse_value("<<" + m.group(1) + ">>")
+            v = parse_value("<<" + m.group(1).replace('\\"', '"') + ">>")
             tid = int(v[0]) - 1 + k
             rec = dict(tid=tid, at=v[1], clause=v[2], detail=v[3] if len(v) > 3 else None)
             if verdicts[tid] is not None and verdicts[tid]["clause"] != rec["clause"]:
